@@ -139,7 +139,7 @@ func c16Observe(kb *ast.KnowledgeBase) string {
 			evs = append(evs, e)
 		}
 	}
-	return fmt.Sprintf("fetch=%v err=%v | %s | S=%q panic=%v", names, res.Err, strings.Join(evs, " "), w.Objs["F"].S, tr.Panic)
+	return fmt.Sprintf("fetch=%v err=%v | %s | S=%q panic=%v", names, res.Err, hx.Evs(evs), w.Objs["F"].S, tr.Panic)
 }
 
 var c16RefCache sync.Map
